@@ -32,8 +32,12 @@ def cases(chk):
     # messages whose payload the library cannot present: every kind, generated field values and key shapes
     for i in range(chk.scale(300, 6000)):
         d = {"tag": "message", "mtype": "text", "hasProto": 1, "media": "absent", "payload": "other", "pseed": r.randrange(1 << 30) if i >= 9 * 4 else i * 1000003 + i,
-             "participant": r.choice([0, 1])}
+             "participant": r.choice([0, 1]), "skdm": r.choice([0, 0, 1])}
         yield "recv", {"d": d, "flags": r.choice(c06.FLAGSETS), "enc": r.choice([0, 1])}
+    # unsupported media types, with and without a piggy-backed key distribution
+    for sk in (0, 1):
+        for f in c06.FLAGSETS:
+            yield "recv", {"d": {"tag": "message", "mtype": "media", "hasProto": 1, "media": "other", "skdm": sk, "participant": sk}, "flags": f, "enc": 0}
     # the same stanza 2-4 times under the same id on the same stack: every occurrence is acknowledged
     for d in [x for x in c06.SUPPORTED if _relevant(x) and x["tag"] in ("iq", "call", "notification")]:
         yield "recv", {"d": d, "flags": r.choice(c06.FLAGSETS), "enc": r.choice([0, 1]), "repeat": r.choice([2, 3, 4])}
